@@ -7,6 +7,7 @@ import (
 	"sort"
 	"strings"
 
+	"github.com/rhysd/actionlint"
 	"gopkg.in/yaml.v3"
 )
 
@@ -237,6 +238,72 @@ func runC03(c *ctx, r *Report) error {
 	sort.Strings(keys)
 	r.sample(map[string]string{"file": "a.yml", "key_path": "jobs.build.container.volumes.[0]", "placeholder": "${{ (( }}"})
 	r.sample(map[string]string{"file": "b.yml", "key_path": "on.workflow_call.secrets.token.required", "placeholder": "${{ a b }}"})
+	// "the workflow parser stores each scalar … so that rules can inspect them": every scalar value of a clean workflow
+	// (mapping values and sequence elements) is the position of some node of the AST the parser returns — in the order as
+	// written and with every pair of every mapping moved to the front (generic walk over the AST by reflection)
+	{
+		lost := 0
+		for _, name := range names {
+			root, err := parseYAML(bases[name])
+			if err != nil {
+				continue
+			}
+			var visits []yvisit
+			walkYAML(root, nil, nil, &visits)
+			var trees []*yaml.Node
+			var what []string
+			trees, what = append(trees, root), append(what, "as written")
+			if !strings.HasPrefix(name, "testdata/") || !c.quick {
+				for _, v := range visits {
+					if v.isKey || v.node.Kind != yaml.MappingNode || len(v.node.Content) < 4 {
+						continue
+					}
+					m := cloneNode(root)
+					n := nodeAt(m, v.path)
+					k := len(n.Content) - 2
+					n.Content = append([]*yaml.Node{n.Content[k], n.Content[k+1]}, n.Content[:k]...)
+					trees, what = append(trees, m), append(what, "last pair of "+strings.Join(v.keys, ".")+" moved to the front")
+				}
+			}
+			for ti, tr := range trees {
+				src, err := emitYAML(tr)
+				if err != nil {
+					continue
+				}
+				re, err := parseYAML(src)
+				if err != nil {
+					continue
+				}
+				w, perrs := actionlint.Parse([]byte(src))
+				r.Evaluations++
+				if w == nil || len(perrs) > 0 {
+					continue
+				}
+				pos := astPositions(w)
+				var vs []yvisit
+				walkYAML(re, nil, nil, &vs)
+				for _, v := range vs {
+					if v.isKey || v.node.Kind != yaml.ScalarNode || len(v.keys) == 0 || v.node.Tag == "!!null" {
+						continue
+					}
+					r.hist("ast-scalar")
+					// kept as an enumeration value / a flag, not as a positioned string (the property's own exemptions):
+					// the `type` of an input, `secrets: inherit`
+					isInputType := v.keys[len(v.keys)-1] == "type" && len(v.keys) >= 3 && v.keys[len(v.keys)-3] == "inputs"
+					isInherit := len(v.keys) == 3 && v.keys[0] == "jobs" && v.keys[2] == "secrets"
+					if isInputType || isInherit {
+						continue
+					}
+					if !pos[[2]int{v.node.Line, v.node.Column}] {
+						lost++
+						r.finding("scalar-not-in-ast:"+genericKeyPath(v.keys), fmt.Sprintf("the scalar at %s (%d:%d) of a clean workflow is not the position of any node of the parsed AST: no rule can inspect it", strings.Join(v.keys, "."), v.node.Line, v.node.Column),
+							Case{Op: "parse-ast", Input: map[string]string{"file": name, "arrangement": what[ti], "yaml": src}})
+					}
+				}
+			}
+		}
+		r.Rule += "; every scalar value of the clean workflows is the position of a node of the AST actionlint.Parse returns (reflection walk), as written and with each mapping's last pair moved to the front"
+	}
 	// AL.Props.C03Step: in the model every key's value of a (script or action) step reaches the field named after the key in
 	// every key order; a step whose node lacks a value the model keeps has lost it on the way to the checker
 	nPS := 400
